@@ -57,9 +57,13 @@ bool Mul::is_canonical(const RCP<const Number> &coef,
         if (is_a<Mul>(*p.first)) {
             if (is_a<Integer>(*p.second))
                 return false;
+            // a positive or negative coefficient is split off by power_num();
+            // a complex one stays inside the base, e.g. ((1+2*I)*x)**(1/2)
             if (is_a_Number(*p.second)
                 and neq(*down_cast<const Mul &>(*p.first).coef_, *one)
-                and neq(*down_cast<const Mul &>(*p.first).coef_, *minus_one))
+                and neq(*down_cast<const Mul &>(*p.first).coef_, *minus_one)
+                and (down_cast<const Mul &>(*p.first).coef_->is_positive()
+                     or down_cast<const Mul &>(*p.first).coef_->is_negative()))
                 return false;
         }
         // e.g. x**2**y (={x**2:y}), which should be represented as x**(2y)
